@@ -495,6 +495,18 @@ def _await_descriptor_upload(tor_protocol, onion, progress, await_all_uploads):
     # caller can do "d = _await_descriptor_upload()", then add the
     # service.
     yield tor_protocol.add_event_listener('HS_DESC', hs_desc)
+
+    # no more events will arrive once the connection to Tor is gone
+    def connection_lost(arg):
+        if not uploaded.called:
+            uploaded.errback(
+                RuntimeError("Lost connection to Tor while waiting for descriptor upload")
+            )
+        return arg
+    when_disconnected = getattr(tor_protocol, 'when_disconnected', None)
+    if when_disconnected is not None:
+        when_disconnected().addBoth(connection_lost)
+
     try:
         yield uploaded
     except Exception:
